@@ -112,11 +112,11 @@ open AGV.Model.Coerce in
 def modelDynamic (rawMode : Bool) (D : Defects) (T : Table) (op : OpDef) (raw : List (String × GValue)) : Out :=
   let fs := rootFields op
   let valid :=
-    varDefaultsValid T op.vars
+    varDefaultsValid D.nonObjectPassesInputObject T op.vars
       && fs.all (fun f => match T.field? f.2.1 with
           | some sig => fieldValid D T raw sig f.2.2
           | none => false)
-      && (D.varValueNotCoerced || varValuesValid T op.vars raw)
+      && (D.varValueNotCoerced || varValuesValid D.nonObjectPassesInputObject T op.vars raw)
   if !valid then { status := .reqerr, fields := fs.map (fun f => (f.1, .notInvoked)) }
   else if rawMode then
     { status := .ok,
@@ -186,12 +186,14 @@ def judge (known : List String) (case impl : String) : JudgeOut :=
       | [op] =>
         let has := fun (id : String) => known.contains id
         let ids := ["C06-omitted-variable-skips-argument-default", "C06-null-becomes-singleton-list",
-                    "C06-variable-values-not-coerced", "C06-literal-unchecked-beside-unsupplied-variable"]
+                    "C06-variable-values-not-coerced", "C06-literal-unchecked-beside-unsupplied-variable",
+                    "C06-non-object-passes-input-object-validation"]
         let mk : Option String → Defects := fun off =>
           { omittedVarSkipsArgDefault := has ids[0]! && off ≠ some ids[0]!,
             nullToSingletonList := has ids[1]! && off ≠ some ids[1]!,
             varValueNotCoerced := has ids[2]! && off ≠ some ids[2]!,
-            literalUncheckedBesideVar := has ids[3]! && off ≠ some ids[3]! }
+            literalUncheckedBesideVar := has ids[3]! && off ≠ some ids[3]!,
+            nonObjectPassesInputObject := has ids[4]! && off ≠ some ids[4]! }
         let dynId := "C06-dynamic-args-not-coerced"
         let isDyn := stream = "dynamic"
         let model := fun (off : Option String) =>
